@@ -1,0 +1,38 @@
+//go:build verif
+
+// Contracts for the verification machinery in /verif (govc). This file is only compiled with -tags verif;
+// it adds no behaviour to the package. Syntax: see /verif/DESIGN.md, Appendix A.
+package watchers
+
+// verifAssume / verifAssert are the harness primitives: govc treats them as assumption and obligation;
+// natively (replays) a violated assertion panics with its label.
+func verifAssume(c bool) {
+	if !c {
+		panic("verifAssume: precondition of the harness not met")
+	}
+}
+
+func verifAssert(label string, c bool) {
+	if !c {
+		panic("verifAssert violated: " + label)
+	}
+}
+
+// C02 / C07 (owner: con-c07): the WatchersHub is outside the model (DESIGN section 3, C02 "Out"). Its methods only
+// touch the hub's own fields and wake waiting goroutines; the commit-state functions of embedded/store never read hub
+// state except through the results of Status()/WaitFor(), which are arbitrary here. ASSUMED frames (never checked).
+
+//@ func (*WatchersHub).Status
+//@   assigns internal
+
+//@ func (*WatchersHub).RecedeTo
+//@   assigns internal
+
+//@ func (*WatchersHub).DoneUpto
+//@   assigns internal
+
+//@ func (*WatchersHub).WaitFor
+//@   assigns internal
+
+//@ func (*WatchersHub).Close
+//@   assigns internal
